@@ -337,24 +337,13 @@ def run(ctx):
 
 def pool_membership(ctx, swap, offer_i):
     """The swap handler errs unless the named offer info equals pools[0].info or pools[1].info (G19)."""
+    from .. import selection
     P = ctx.P
-    hits = set()
-    for g in common.bool_guards(P, swap):
-        c = g.cond
-        if c[0] == "cmp" and c[1] in ("equal", "eq") and len(c[2]) == 2:
-            a, b = set(ctx.roots(c[2][0])), set(ctx.roots(c[2][1]))
-            for x, y in ((a, b), (b, a)):
-                if x == {P_(swap, offer_i, ".info")} and len(y) == 1:
-                    m = re.match(r"^C:%s@.*\[([01])\]\.info$" % ctx.N.rx("query_pools"), list(y)[0])
-                    if m:
-                        hits.add((int(m.group(1)), g))
-    if {k for k, _ in hits} != {0, 1}:
+    qp = [b for b, p, fr, t in P.calls(swap) if ctx.N.is_fn(p, "query_pools")]
+    if len(qp) != 1:
         return False
-    # the "neither" path must err
-    g0 = [g for k, g in hits if k == 0][0]
-    g1 = [g for k, g in hits if k == 1][0]
-    for ga, gb in ((g0, g1), (g1, g0)):
-        if swap.body.edge_dominates(ga.edge(False), gb.b):
-            ok, _ = common.fail_edge_only_errors(P, swap, gb.edge(False))
-            return ok
-    return False
+    QP = "C:%s@%s:bb%d" % (ctx.N.cpath("query_pools"), swap.path, qp[0])
+    try:
+        return selection.PoolSelection(ctx, swap, offer_i, QP).rejects_foreign()
+    except AnchorMissing:
+        return False
